@@ -57,6 +57,9 @@ class Ctx:
         self.prog = Program(repo)
         from .model import canonicalise_private_attributes, canonicalise_private_helpers, fold_constants
 
+        from .model import fold_optional_injection
+
+        self.folded_injection = fold_optional_injection(self.prog)
         self.folded_constants = fold_constants(self.prog)
         from .model import canonicalise_private_params, inline_attribute_aliases
 
@@ -82,6 +85,8 @@ class Ctx:
             self.notes.append("private helpers recognised by role under a new name: " + ", ".join(f"{k} <- {v}" for k, v in sorted(self.renamed_helpers.items())))
         if self.folded_constants:
             self.notes.append("constants bound once to a literal, read as that literal: " + ", ".join(self.folded_constants))
+        if self.folded_injection:
+            self.notes.append("optional parameters nobody passes, read as their default: " + ", ".join(self.folded_injection))
         if self.inlined_aliases:
             self.notes.append("local aliases of attribute chains read as the chain: " + ", ".join(self.inlined_aliases))
         if self.renamed_params:
